@@ -26,22 +26,23 @@ ASSUME = [
 
 
 def script_of(events):
-    return json.loads(events[0]["script"]) if events and events[0].get("k") == "init" else []
+    """The concrete calls of a case: echoed by the harness in its closing reset event."""
+    return json.loads(events[-1]["script"]) if events and events[-1].get("k") == "reset" else []
 
 
 def record(ctx, path):
     nd = {}
-    for ev in vb.cases_of(path):
-        if not ev:
+    for ev in vb.cases_of(path, with_reset=True):
+        if len(ev) < 2:
             continue
-        leg = ev[0].get("leg", "?")
+        leg = ev[-1].get("leg", "?")
         interesting = [e for e in ev if e["k"] in ("fault", "gpf") or (e["k"] == "map" and e["res"] != "ok")]
         if interesting:
-            ctx.distinct(ev[0].get("script"))
+            ctx.distinct(ev[-1].get("script"))
         if nd.get(leg, 0) < 2 and any(e["k"] == "fault" and e["res"] == "resume" for e in ev):
             nd[leg] = nd.get(leg, 0) + 1
             ctx.sample({"leg": leg, "script": script_of(ev),
-                        "events": [{k: v for k, v in e.items() if k not in ("st", "script")} for e in ev[5:9]]})
+                        "events": [{k: v for k, v in e.items() if k not in ("st", "script")} for e in ev[5:9] if e["k"] != "reset"]})
 
 
 def run(ctx):
@@ -58,8 +59,10 @@ def run(ctx):
     c1 = os.path.join(ctx.work, "c06_cases_flags.ndjson")
     c2 = os.path.join(ctx.work, "c06_cases_seq.ndjson")
     # ---- leg M
-    ctx.model_check(d, "MCCoW", "MCCoWFlags" + tier, env={"CASES": c1}, workers=2 if q else 8, timeout=600, coverage=not q)
-    ctx.model_check(d, "MCCoW", "MCCoWSeq" + tier, env={"CASES": c2}, workers=4 if q else 16, timeout=1500, coverage=not q)
+    for cfg, cf, w in (("MCCoWFlags" + tier, c1, 2 if q else 8), ("MCCoWSeq" + tier, c2, 4 if q else 16)):
+        r = ctx.model_check(d, "MCCoW", cfg, env={"CASES": cf}, workers=w, timeout=1500, coverage=not q)
+        if r.coverage_zero:
+            raise vlib.Broken("an action of CoW was never taken (vacuous scope): %s" % r.coverage_zero)
     for b in vb.pick_bugs(BUGS, 3 if q else len(BUGS), ctx.seed):
         ctx.expect_model_violation(d, "MCCoW", "MCCoWBug_" + b, workers=2, timeout=240)
     # ---- leg G
@@ -92,7 +95,7 @@ def run(ctx):
     record(ctx, tra)
     seen = {}
     for m in mism:
-        leg = m["case_events"][0].get("leg", "?")
+        leg = m["case_events"][-1].get("leg", "?")
         seen[leg] = seen.get(leg, 0) + 1
         if seen[leg] <= 2:
             ev = m["case_events"][m["line_in_case"] - 1]
